@@ -165,6 +165,38 @@ fn local_case(file: &Arc<Vec<u8>>, ranges: &[(u64, usize)], frag: FragPlan, pend
     Ok(())
 }
 
+/// Parameters of the i-th random local-reader case (regenerated for replay).
+fn local_random_params(seed: u64, i: usize) -> (Arc<Vec<u8>>, Vec<(u64, usize)>, FragPlan, PendPlan, bool) {
+    let mut rng = Rng::new(seed).fork(0x0800_0000 + i as u64);
+    let flen = rng.urange(40, 3000);
+    let file = Arc::new(file_bytes(flen));
+    let shape = match rng.below(5) {
+        0 => RangeShape::Adjacent,
+        1 => RangeShape::Gapped,
+        2 => RangeShape::Unordered,
+        3 => RangeShape::Repeated,
+        _ => RangeShape::Mixed,
+    };
+    let mut ranges = gen_ranges(&mut rng, flen, &shape, 8, (flen / 3).min(300).max(2));
+    let mut past_eof = false;
+    if rng.chance(1, 10) {
+        let k = rng.usize_below(ranges.len());
+        ranges[k] = ((flen - rng.urange(0, 3)) as u64, rng.urange(4, 20));
+        past_eof = true;
+    }
+    let frag = match rng.below(3) {
+        0 => FragPlan::Fixed(1),
+        1 => FragPlan::Random { seed: rng.next_u64(), max: 7 },
+        _ => FragPlan::Random { seed: rng.next_u64(), max: 400 },
+    };
+    let pend = match rng.below(3) {
+        0 => PendPlan::Never,
+        1 => PendPlan::Every(rng.range(2, 5)),
+        _ => PendPlan::Random { seed: rng.next_u64(), num: 1, den: 3 },
+    };
+    (file, ranges, frag, pend, past_eof)
+}
+
 fn local_engine(rep: &Report, seed: u64, tier: Tier) {
     // (a) exhaustive: one or two ranges with total body <= 10 bytes, every composition of
     //     the bytes read (positions of short reads), with and without Pending.
@@ -215,32 +247,8 @@ fn local_engine(rep: &Report, seed: u64, tier: Tier) {
         let mut eof = 0u64;
         for j in 0..500 {
             let i = b * 500 + j;
-            let mut rng = Rng::new(seed).fork(0x0800_0000 + i as u64);
-            let flen = rng.urange(40, 3000);
-            let file = Arc::new(file_bytes(flen));
-            let shape = match rng.below(5) {
-                0 => RangeShape::Adjacent,
-                1 => RangeShape::Gapped,
-                2 => RangeShape::Unordered,
-                3 => RangeShape::Repeated,
-                _ => RangeShape::Mixed,
-            };
-            let mut ranges = gen_ranges(&mut rng, flen, &shape, 8, (flen / 3).min(300).max(2));
-            if rng.chance(1, 10) {
-                let k = rng.usize_below(ranges.len());
-                ranges[k] = ((flen - rng.urange(0, 3)) as u64, rng.urange(4, 20));
-                eof += 1;
-            }
-            let frag = match rng.below(3) {
-                0 => FragPlan::Fixed(1),
-                1 => FragPlan::Random { seed: rng.next_u64(), max: 7 },
-                _ => FragPlan::Random { seed: rng.next_u64(), max: 400 },
-            };
-            let pend = match rng.below(3) {
-                0 => PendPlan::Never,
-                1 => PendPlan::Every(rng.range(2, 5)),
-                _ => PendPlan::Random { seed: rng.next_u64(), num: 1, den: 3 },
-            };
+            let (file, ranges, frag, pend, past_eof) = local_random_params(seed, i);
+            eof += past_eof as u64;
             n += 1;
             if let Err(e) = local_case(&file, &ranges, frag.clone(), pend.clone()) {
                 if v.len() < 3 {
@@ -654,8 +662,8 @@ pub fn replay(v: &Value) -> i32 {
             local_case(&Arc::new(file_bytes(64)), &ranges, FragPlan::List(comp), pend)
         }
         _ => {
-            println!("replay of random local cases: re-run the check with the same VERIF_SEED");
-            Ok(())
+            let (file, ranges, frag, pend, _) = local_random_params(r["seed"].as_u64().unwrap_or(1), r["i"].as_u64().unwrap_or(0) as usize);
+            local_case(&file, &ranges, frag, pend)
         }
     };
     match res {
